@@ -1106,6 +1106,18 @@ class Interp:
 
     def call_closure(self, st, f, args, kwargs):
         node = f.node
+        callstack = st.ghost.get('$callstack', ())
+        if callstack.count(id(node)) >= 2:
+            # a RECURSIVE call (of the function under contract, or of a real function being inlined) is unfolded ONCE; below that its
+            # result is arbitrary - a value nobody has specified, or an exception - and whatever is refuted on such a path is undecided
+            # (same rule as a library object without a model: the counter-model need not be an execution)
+            st.emit('recursive_call', function=f.name)
+            st.emit('unknown_state_used', name=f'module:recursion({f.name})', depth=1)
+            t = st.copy()
+            yield st, Unknown(f'module:recursion({f.name})')
+            t.emit('recursive_call_raised', function=f.name)
+            yield t, Raised(Exc('AnyError'))
+            return
         if any(isinstance(a, StarArg) for a in args):
             raise Unsupported('star-args into closure')
         kwargs = dict(kwargs)
@@ -1153,9 +1165,12 @@ class Interp:
                 yield s, v
             return
         self.fn_stack.append(f.name)
+        # the call stack lives in the STATE: paths are enumerated lazily, the caller's continuation runs while this generator is suspended
+        st.ghost['$callstack'] = callstack + (id(node),)
         try:
             for s, out in self.exec_block(node.body, st):
                 s.cur = saved
+                s.ghost['$callstack'] = callstack
                 if out[0] == 'normal':
                     yield s, None
                 elif out[0] == 'return':
@@ -2035,6 +2050,7 @@ class Interp:
         e.g. 'For#1') in state st (env must already bind params)."""
         from . import source
         self.loop_nodes = {**source.loops_in(fn_node), **self.loop_nodes}
+        st.ghost['$callstack'] = (id(fn_node),)
         body = fn_node.body
         if isinstance(stmt, tuple):
             start, end = stmt
